@@ -18,6 +18,7 @@ import (
 	"github.com/nspcc-dev/neofs-node/pkg/local_object_storage/blobstor/common"
 	"github.com/nspcc-dev/neofs-node/pkg/local_object_storage/util/logicerr"
 	"github.com/nspcc-dev/neofs-node/pkg/util"
+	"github.com/nspcc-dev/neofs-node/pkg/util/verifhook"
 	apistatus "github.com/nspcc-dev/neofs-sdk-go/client/status"
 	cid "github.com/nspcc-dev/neofs-sdk-go/container/id"
 	"github.com/nspcc-dev/neofs-sdk-go/object"
@@ -300,7 +301,11 @@ func (t *FSTree) Delete(addr oid.Address) error {
 		return err
 	}
 
+	if ferr := verifhook.Fault("fstree.delete.unlink"); ferr != nil {
+		return fmt.Errorf("remove file %q: %w", p, ferr) // injected: the name is not removed
+	}
 	err = os.Remove(p)
+	verifhook.Point("fstree.after.delete.unlink")
 	if err != nil {
 		if errors.Is(err, fs.ErrNotExist) {
 			return logicerr.Wrap(apistatus.ObjectNotFound{})
